@@ -93,6 +93,14 @@ func MockEnvStubs() map[string]exec.Stub {
 // mockShapeSrc is the source package of H.mock (names of the scope objects become symbolic).
 const mockShapeDep = `package q
 type T struct{}
+type Key string
+type Page[T any] struct{ Items []T }
+type Integer interface{ ~int | ~int8 | ~int16 }
+`
+
+// a third dependency that some signatures reach only through the type argument of an instantiation
+const mockShapeDep3 = `package w
+type T struct{}
 `
 
 // a second dependency with the SAME package name, reached only through an embedded interface of a
@@ -108,6 +116,7 @@ const mockShapeSrc = `package src
 import (
 	"src.example/p/q"
 	"src.example/h"
+	"src.example/w"
 )
 type I1 interface { M0(); M1(a q.T, b int) error; M2(first q.T, rest ...q.T); M3(chunks ...[]q.T) []q.T }
 type I2 interface {}
@@ -137,10 +146,17 @@ type Cons interface {
 	C8(v ...func() q.T)
 	C9(g G[q.T]) map[q.T][]chan *q.T
 }
+type Nest interface {
+	N1(m map[q.Key]q.Page[w.T])
+	N2(p q.Page[q.Page[*w.T]]) q.Key
+}
+type Sh[K interface{ q.Integer; ~int8 | ~int16 }, V any] interface { Put(k K, v V) }
+type Ky[K interface{ comparable; ~int | ~string }] interface { Has(k K) bool }
 `
 
 type mockSetup struct {
 	tm                 *TM
+	cv                 *Conv
 	reg                *exec.StructLoc
 	mocker             *exec.StructLoc
 	src                *MPkg
@@ -176,6 +192,7 @@ func buildMocker(ex *exec.Exec, env *Env, pkgs map[string]*types.Package, mode s
 	qpath := c.StrC("src.example/p/q")
 	qname := c.StrC("q")
 	cv := NewConv(ex)
+	ms.cv = cv
 	cv.PkgOf = func(p *types.Package) *MPkg {
 		switch p.Path() {
 		case "src.example/src":
@@ -184,6 +201,8 @@ func buildMocker(ex *exec.Exec, env *Env, pkgs map[string]*types.Package, mode s
 			return &MPkg{Name: qname, Path: qpath, Tag: "q"}
 		case "src.example/r/q":
 			return &MPkg{Name: c.StrC("q"), Path: c.StrC("src.example/r/q"), Tag: "q2"}
+		case "src.example/w":
+			return &MPkg{Name: c.StrC("w"), Path: c.StrC("src.example/w"), Tag: "w"}
 		}
 		return nil
 	}
@@ -197,7 +216,7 @@ func buildMocker(ex *exec.Exec, env *Env, pkgs map[string]*types.Package, mode s
 			t := symIdent(ex, "name_"+tn.Name(), bound)
 			ex.AssumeNoCheck(c.Not(c.Eq(t, c.StrC("_"))))
 			ex.AssumeDomain(notKeyword(ex, t))
-			for _, imp := range []string{"q", "h"} { // package-level names differ from the file's import names (Go)
+			for _, imp := range []string{"q", "h", "w"} { // package-level names differ from the file's import names (Go)
 				ex.AssumeNoCheck(c.Not(c.Eq(t, c.StrC(imp))))
 			}
 			ms.names[tn.Name()] = t
@@ -414,8 +433,8 @@ func HMock(props ...string) *Harness {
 		if env.Tier == "thorough" {
 			maxK, bound = 3, 8
 		}
-		hh.Bounds = []string{fmt.Sprintf("k ≤ %d arguments (symbolic strings), identifiers ≤ %d chars, destination modes {same, unknown, other}; k = 1: every object of the model package is a candidate; k ≥ 2: candidates restricted to four focus groups of interacting objects (k = 3: two groups), fixed formatter and -pkg", maxK, bound)}
-		pkgs, _, err := TypeCheck([]SrcPkg{{"src.example/p/q", mockShapeDep}, {"src.example/r/q", mockShapeDep2}, {"src.example/h", mockShapeHelper}, {"src.example/src", mockShapeSrc}})
+		hh.Bounds = []string{fmt.Sprintf("k ≤ %d arguments (symbolic strings), identifiers ≤ %d chars, destination modes {same, unknown, other}; k = 1: every object of the model package is a candidate; k ≥ 2: candidates restricted to five focus groups of interacting objects; k = 3 on the light scope only; fixed formatter and -pkg", maxK, bound)}
+		pkgs, _, err := TypeCheck([]SrcPkg{{"src.example/p/q", mockShapeDep}, {"src.example/r/q", mockShapeDep2}, {"src.example/w", mockShapeDep3}, {"src.example/h", mockShapeHelper}, {"src.example/src", mockShapeSrc}})
 		if err != nil {
 			panic(err)
 		}
@@ -441,8 +460,8 @@ func HMock(props ...string) *Harness {
 				if k >= 2 && variant == "full" {
 					groups = sortedKeys(focusGroups)
 				}
-				if k >= 3 {
-					groups = []string{"conflicting-imports", "instantiations"}
+				if k >= 3 && variant == "full" {
+					continue // three arguments are explored on the light scope only (the full scope at k = 3 needs > 10 GB)
 				}
 				for _, g := range groups {
 					k, mode, g := k, mode, g
@@ -569,7 +588,7 @@ func runMock(ic *IC, ex *exec.Exec, env *Env, fn exec.Value, pkgs map[string]*ty
 	})
 
 	// reference: which scope object each argument names
-	ifaceObjs := []string{"I1", "I2", "G", "L", "K", "AG", "SO", "Cmp", "Repo", "CK", "St", "US", "OS", "Cons"}
+	ifaceObjs := []string{"I1", "I2", "G", "L", "K", "AG", "SO", "Cmp", "Repo", "CK", "St", "US", "OS", "Cons", "Nest", "Sh", "Ky"}
 	{
 		var present []string
 		for _, n := range ifaceObjs {
@@ -742,6 +761,9 @@ func runMock(ic *IC, ex *exec.Exec, env *Env, fn exec.Value, pkgs map[string]*ty
 				if q < ntp && tp.Vr != nil && tp.Vr.Typ != nt.TParams.Ts[q].Constraint {
 					ex.Fail(fmt.Sprintf("C09: type parameter %d of mock %d is not declared under the interface's own constraint", q, i))
 				}
+				if q < ntp {
+					checkSelfCheckArg(ex, ms, tp.Constraint, nt.TParams.Ts[q].Constraint, obj.Tag, q)
+				}
 			}
 		}
 		if len(got.TypeParams) != ntp {
@@ -815,6 +837,48 @@ func runMock(ic *IC, ex *exec.Exec, env *Env, fn exec.Value, pkgs map[string]*ty
 	}
 }
 
+// checkSelfCheckArg: the type the compile-time self-check instantiates a type parameter with (nil: the
+// constraint's own text) must be a type argument the constraint admits. Decided with go/types on the
+// real (type-checked) shape: Satisfies for a chosen type; for nil, only constraints that directly embed
+// a basic type or a union are required to get one (what the code documents; F5/F6 lie outside).
+func checkSelfCheckArg(ex *exec.Exec, ms *mockSetup, chosen exec.Value, constraint *MType, tag string, q int) {
+	realC := ms.cv.RealOf(constraint)
+	if realC == nil {
+		return
+	}
+	ci, ok := realC.Underlying().(*types.Interface)
+	if !ok {
+		return
+	}
+	var mt *MType
+	if iv, ok := chosen.(exec.Iface); ok && iv.V != nil {
+		mt, _ = iv.V.(*MType)
+	}
+	if mt == nil {
+		direct := false
+		for j := 0; j < ci.NumEmbeddeds(); j++ {
+			switch ci.EmbeddedType(j).(type) {
+			case *types.Basic, *types.Union:
+				direct = true
+			}
+		}
+		if direct {
+			ex.Fail(fmt.Sprintf("C09: type parameter %d of %s: the constraint embeds a basic type or union but the self-check gets no explicit type argument (it would print the constraint itself, which is not a type)", q, tag))
+		}
+		return
+	}
+	realT := ms.cv.RealOf(mt)
+	if realT == nil {
+		ex.Inconclusive("self-check type argument is not a type of the shape")
+		return
+	}
+	if !types.Satisfies(realT, ci) {
+		ex.Fail(fmt.Sprintf("C09: type parameter %d of %s: the self-check instantiates it with %s, which does not satisfy the constraint %s", q, tag, realT, realC))
+	} else {
+		ex.Pass("C09: the explicit type argument of the self-check satisfies the type parameter's constraint")
+	}
+}
+
 // mockCLICase realises a model of H.mock as a scratch module for the real CLI.
 func mockCLICase(m map[string]string, k int, mode string) *CLICase {
 	name := func(n, def string) string {
@@ -830,10 +894,12 @@ func mockCLICase(m map[string]string, k int, mode string) *CLICase {
 	I1, I2, G, S, L := name("I1", "I1"), name("I2", "I2"), name("G", "G"), name("S", "S"), name("L", "L")
 	files := map[string]string{
 		"go.mod":   "module src.example\n\ngo 1.21\n",
-		"p/q/q.go": "package q\n\ntype T struct{}\n",
+		"p/q/q.go": "package q\n\ntype T struct{}\ntype Key string\ntype Page[T any] struct{ Items []T }\ntype Integer interface{ ~int | ~int8 | ~int16 }\n",
 		"r/q/q.go": "package q\n\ntype T struct{}\n",
+		"w/w.go":   "package w\n\ntype T struct{}\n",
 		"h/h.go":   "package h\n\nimport \"src.example/r/q\"\n\ntype J interface{ Zed(x q.T) }\n",
-		"src/x.go": fmt.Sprintf("package %s\n\nimport (\n\t\"src.example/h\"\n\t\"src.example/p/q\"\n)\n\ntype %s interface {\n\tM0()\n\tM1(a q.T, b int) error\n\tM2(first q.T, rest ...q.T)\n\tM3(chunks ...[]q.T) []q.T\n}\ntype %s interface{}\ntype %s[T any] interface{ Get(k T) T }\ntype %s struct{}\ntype %s interface{ Do(x %s) }\ntype %s interface{ h.J }\ntype %s = %s[int]\ntype %s[T any] interface{ Less(o T) bool }\ntype %s[T %s[T]] interface{ Min() T }\ntype %s string\ntype %s[K interface{ %s }, V any] interface{ Load(id K) (V, error) }\ntype %s[K comparable, V any] interface{ Snap() map[K]V }\ntype %s[T any] interface{ Fetch(id string) (T, error) }\ntype %s struct{}\ntype %s struct{}\ntype %s interface{ %s[%s] }\ntype %s interface{ %s[%s] }\ntype %s interface {\n\tC1(m map[string]q.T)\n\tC2(c chan q.T)\n\tC3(f func(q.T) error)\n\tC4(s struct{ F q.T })\n\tC5(a [2]q.T)\n\tC6(p **q.T)\n\tC7(i interface{ Do(x q.T) })\n\tC8(v ...func() q.T)\n\tC9(g %s[q.T]) map[q.T][]chan *q.T\n}\n", src, I1, I2, G, S, L, S, name("K", "K"), name("AG", "AG"), G, name("Cmp", "Cmp"), name("SO", "SO"), name("Cmp", "Cmp"), name("UID", "UID"), name("Repo", "Repo"), name("UID", "UID"), name("CK", "CK"), name("St", "St"), name("U1", "U1"), name("O1", "O1"), name("US", "US"), name("St", "St"), name("U1", "U1"), name("OS", "OS"), name("St", "St"), name("O1", "O1"), name("Cons", "Cons"), G),
+		"src/x.go": fmt.Sprintf("package %s\n\nimport (\n\t\"src.example/h\"\n\t\"src.example/p/q\"\n\t\"src.example/w\"\n)\n\ntype %s interface {\n\tM0()\n\tM1(a q.T, b int) error\n\tM2(first q.T, rest ...q.T)\n\tM3(chunks ...[]q.T) []q.T\n}\ntype %s interface{}\ntype %s[T any] interface{ Get(k T) T }\ntype %s struct{}\ntype %s interface{ Do(x %s) }\ntype %s interface{ h.J }\ntype %s = %s[int]\ntype %s[T any] interface{ Less(o T) bool }\ntype %s[T %s[T]] interface{ Min() T }\ntype %s string\ntype %s[K interface{ %s }, V any] interface{ Load(id K) (V, error) }\ntype %s[K comparable, V any] interface{ Snap() map[K]V }\ntype %s[T any] interface{ Fetch(id string) (T, error) }\ntype %s struct{}\ntype %s struct{}\ntype %s interface{ %s[%s] }\ntype %s interface{ %s[%s] }\ntype %s interface {\n\tC1(m map[string]q.T)\n\tC2(c chan q.T)\n\tC3(f func(q.T) error)\n\tC4(s struct{ F q.T })\n\tC5(a [2]q.T)\n\tC6(p **q.T)\n\tC7(i interface{ Do(x q.T) })\n\tC8(v ...func() q.T)\n\tC9(g %s[q.T]) map[q.T][]chan *q.T\n}\n", src, I1, I2, G, S, L, S, name("K", "K"), name("AG", "AG"), G, name("Cmp", "Cmp"), name("SO", "SO"), name("Cmp", "Cmp"), name("UID", "UID"), name("Repo", "Repo"), name("UID", "UID"), name("CK", "CK"), name("St", "St"), name("U1", "U1"), name("O1", "O1"), name("US", "US"), name("St", "St"), name("U1", "U1"), name("OS", "OS"), name("St", "St"), name("O1", "O1"), name("Cons", "Cons"), G) +
+			fmt.Sprintf("type %s interface {\n\tN1(m map[q.Key]q.Page[w.T])\n\tN2(p q.Page[q.Page[*w.T]]) q.Key\n}\ntype %s[K interface {\n\tq.Integer\n\t~int8 | ~int16\n}, V any] interface{ Put(k K, v V) }\ntype %s[K interface {\n\tcomparable\n\t~int | ~string\n}] interface{ Has(k K) bool }\n", name("Nest", "Nest"), name("Sh", "Sh"), name("Ky", "Ky")),
 	}
 	var args []string
 	pkg := m["cfg_PkgName"]
